@@ -145,8 +145,16 @@ fn print_family(dir: &Path, nfiles: usize) -> Vec<PathBuf> {
                 s.push_str(&format!("include \"fam{}.thrift\"\n", j));
             }
         }
+        s.push_str("include \"famshared.thrift\"\n");
         // several files share a namespace prefix, some share the whole namespace
         s.push_str(&format!("namespace rs fam.ns{}.part{}\n\n", i % 3, i % 2));
+        // each file enters the reference cycles of the shared (non-entry) file at another member
+        s.push_str(&format!("struct UsesShared{} {{\n", i));
+        for g in 0..4usize {
+            let l = 3 + g % 3;
+            s.push_str(&format!("  {}: optional famshared.Cyc{}x{} c{},\n", g + 1, g, (i + g) % l, g));
+        }
+        s.push_str("}\n");
         s.push_str(&format!("enum Kind{} {{ A = 0, B = 1, a_b = 2, AB = 3 }}\n", i));
         // names that collide after case conversion
         for (k, n) in ["FooBar", "foo_bar", "Foo_Bar", "fooBar", "FOO_BAR"].iter().enumerate() {
@@ -195,6 +203,16 @@ fn print_family(dir: &Path, nfiles: usize) -> Vec<PathBuf> {
         std::fs::write(&p, s).unwrap();
         entries.push(p);
     }
+    // a file that is only ever included: reference cycles of length 3..5 among types that several entry
+    // files use (in workspace mode they live in the common crate, entered by each crate at another member)
+    let mut sh = String::from("namespace rs fam.shared\n\n");
+    for g in 0..4usize {
+        let l = 3 + g % 3;
+        for k in 0..l {
+            sh.push_str(&format!("struct Cyc{}x{} {{ 1: optional Cyc{}x{} next, 2: optional string tag, 3: optional list<Cyc{}x{}> more }}\n", g, k, g, (k + 1) % l, g, (k + 2) % l));
+        }
+    }
+    std::fs::write(dir.join("famshared.thrift"), sh).unwrap();
     // one namespace with several hundred items (size thresholds in the generator: chunking, inline capacities)
     let mut s = String::from("namespace rs fam.big\n\n");
     for i in 0..330 {
